@@ -767,7 +767,7 @@ func c17History(seed uint64, idx int, big bool) (res c17Hist, err error) {
 	h.note(fmt.Sprintf("deployment servers=%d", nservers))
 	h.note(fmt.Sprintf("deployment final shards=%d", len(h.col.ShardIds)))
 	h.note(fmt.Sprintf("entry node %d of %d", entryA, nservers))
-	res.term = fmt.Sprintf("CHist %d %s %d %d %s", nservers, g.schema.coq(), 1<<20, c17MaxSearchLimit, "[\n    "+strings.Join(h.ops, ";\n    ")+"]")
+	res.term = fmt.Sprintf("CHist %d %s %d %d %s", nservers, g.schema.coq(), 1<<20, c17MaxSearchLimit, "["+strings.Join(h.ops, "; ")+"]")
 	res.kinds = h.kinds
 	res.samples = h.samples
 	return res, nil
